@@ -75,7 +75,7 @@ Proof.
   unfold k_neighbor. destruct (_ && _); [discriminate|]. intros H; inversion H; subst; simpl. repeat split.
 Qed.
 
-(* F19: the source address is never carried *)
+(* F24: the source address is never carried *)
 Lemma k_neighbor_source_dropped s n : k_neighbor s = Some n -> kn_source n = "".
 Proof.
   unfold k_neighbor. destruct (_ && _); [discriminate|]. intros H; inversion H; subst; reflexivity.
